@@ -12,6 +12,8 @@ import (
 
 	"github.com/prometheus/alertmanager/alert"
 	"github.com/prometheus/alertmanager/config"
+	amcommoncfg "github.com/prometheus/alertmanager/config/common"
+	"github.com/prometheus/alertmanager/pkg/labels"
 	"github.com/prometheus/alertmanager/eventrecorder"
 	"github.com/prometheus/alertmanager/featurecontrol"
 	"github.com/prometheus/alertmanager/inhibit"
@@ -185,5 +187,118 @@ func VerifC01_EndToEnd() {
 		default:
 			vfReach("sent-on-first-flush")
 		}
+	}
+}
+
+// VerifC01_EndToEndRouting: the assembled path with a routing tree: an "audit" route
+// that matches everything and continues, a "dba" route for team=db, a "pager" route for
+// severity=page, and the root's default receiver. For every combination of the alert's
+// team / severity labels, exactly the receivers the documented routing rule selects
+// (first matching child wins unless it continues; the parent's receiver only if no
+// child matches) have been notified of the firing alert within group_wait plus slack,
+// and nobody else.
+//
+//vf:quick unwind=24 decisions=700 goroutines=32 preempt=0 sched=fifo timerfires=60 paths=400000 steps=30000000
+//vf:thorough unwind=24 decisions=900 goroutines=48 preempt=0 sched=fifo timerfires=100 paths=4000000 steps=60000000
+//vf:expect reach=pager-and-audit reach=dba-and-audit reach=audit-only
+func VerifC01_EndToEndRouting() {
+	ctx, cancel := context.WithCancel(context.Background())
+	defer cancel()
+	logger := promslog.NewNopLogger()
+	alerts, err := mem.NewAlerts(ctx, 100000*time.Hour, 0, nil, logger, eventrecorder.Recorder{}, prometheus.NewRegistry(), nil)
+	if err != nil {
+		panic(err)
+	}
+	sils, err := silence.New(silence.Options{Retention: time.Hour, Metrics: prometheus.NewRegistry()})
+	if err != nil {
+		panic(err)
+	}
+	nlog, err := nflog.New(nflog.Options{Retention: 100 * time.Hour, Metrics: prometheus.NewRegistry()})
+	if err != nil {
+		panic(err)
+	}
+	gm := marker.NewGroupMarker()
+	names := []string{"default", "audit", "dba", "pager"}
+	recvs := map[string]*hRecvE01{}
+	integrations := map[string][]notify.Integration{}
+	for _, n := range names {
+		recvs[n] = &hRecvE01{}
+		integrations[n] = []notify.Integration{notify.NewIntegration(recvs[n], hRSe01(true), "webhook", 0, n)}
+	}
+	pipeline := notify.NewPipelineBuilder(prometheus.NewRegistry(), featurecontrol.NoopFlags{}, eventrecorder.Recorder{}).New(
+		integrations, func() time.Duration { return 0 },
+		inhibit.NewInhibitor(alerts, nil, logger, eventrecorder.Recorder{}),
+		silence.NewSilencer(sils, logger, eventrecorder.Recorder{}),
+		timeinterval.NewIntervener(nil), gm, nlog, nil)
+	mm := func(t labels.MatchType, n, v string) *labels.Matcher {
+		x, err := labels.NewMatcher(t, n, v)
+		if err != nil {
+			panic(err)
+		}
+		return x
+	}
+	gw, gi := model.Duration(10*time.Second), model.Duration(5*time.Minute)
+	ri := model.Duration(1000 * time.Hour)
+	dbaContinues := vfBool("dba.continue")
+	route := NewRoute(&config.Route{Receiver: "default", GroupBy: []model.LabelName{"alertname"}, GroupWait: &gw, GroupInterval: &gi, RepeatInterval: &ri,
+		Routes: []*config.Route{
+			{Receiver: "audit", Matchers: amcommoncfg.Matchers{mm(labels.MatchRegexp, "alertname", ".+")}, Continue: true},
+			{Receiver: "dba", Matchers: amcommoncfg.Matchers{mm(labels.MatchEqual, "team", "db")}, Continue: dbaContinues},
+			{Receiver: "pager", Matchers: amcommoncfg.Matchers{mm(labels.MatchEqual, "severity", "page")}},
+		}}, nil)
+	d := NewDispatcher(alerts, route, pipeline, gm, func(d time.Duration) time.Duration { return d },
+		100000*time.Hour, nil, logger, eventrecorder.Recorder{}, nil, nil)
+	vfGo("dispatcher", func() { d.Run(time.Now()) })
+	defer func() {
+		d.state.Store(DispatcherStateStopped)
+		cancel()
+		d.cancel()
+		if vfNative() {
+			d.finished.Wait()
+		}
+	}()
+	vfAdvance(5 * time.Second)
+	t0 := vfNow()
+	lset := model.LabelSet{"alertname": "A"}
+	isDB, isPage := vfBool("team=db"), vfBool("severity=page")
+	if isDB {
+		lset["team"] = "db"
+	}
+	if isPage {
+		lset["severity"] = "page"
+	}
+	a := &types.Alert{}
+	a.Labels = lset
+	a.StartsAt, a.UpdatedAt = t0, t0
+	a.EndsAt = t0.Add(1000 * time.Hour)
+	if alerts.Put(ctx, a) != nil {
+		vfFail("alert-not-accepted")
+	}
+	vfAdvance(time.Duration(gw) + time.Second)
+	// the documented rule
+	want := map[string]bool{"audit": true}
+	switch {
+	case isDB && (!isPage || !dbaContinues):
+		want["dba"] = true
+	case isDB:
+		want["dba"], want["pager"] = true, true
+	case isPage:
+		want["pager"] = true
+	}
+	for _, n := range names {
+		got := len(recvs[n].okAt) > 0
+		if want[n] {
+			vfAssert("selected-receiver-was-notified-of-the-firing-alert", got && recvs[n].firing[0] == 1)
+		} else {
+			vfAssert("unselected-receiver-was-not-notified", !got)
+		}
+	}
+	switch {
+	case want["pager"]:
+		vfReach("pager-and-audit")
+	case want["dba"]:
+		vfReach("dba-and-audit")
+	default:
+		vfReach("audit-only")
 	}
 }
